@@ -70,6 +70,7 @@ static void conf_from_cmd(Cmd *c, CC_HashTableConf *conf) {
 #define NSLOT 4
 static CC_HashTable *ht;
 static CC_Array *darr[NSLOT];
+static int dkind[NSLOT]; /* 1 = keys array (elements are key pointers), 2 = values */
 static CC_HashTableIter it; static int it_valid, it_can_remove;
 static uint64_t universe[4096]; static size_t n_univ;
 static unsigned long long ord_log[4096]; static size_t ord_n; static int ord_on;
@@ -95,7 +96,8 @@ static void obs_abs(void) {
     if (ht) {
         qsort(universe, n_univ, sizeof(uint64_t), cmp_u64);
         size_t cnt = 0;
-        o("size=%zu cap=%zu ", cc_hashtable_size(ht), cc_hashtable_capacity(ht));
+        o("size=%zu ", cc_hashtable_size(ht));
+        if (cc_hashtable_capacity(ht) != ht->capacity) o("WALK=capacity-accessor ");
         O_LIST("keys");
         for (size_t i = 0; i < n_univ; i++) if (cc_hashtable_contains_key(ht, mkkey(universe[i]))) { o_item(universe[i]); cnt++; }
         o_end(); o(" ");
@@ -111,11 +113,11 @@ static void obs_abs(void) {
             if (cc_hashtable_get(ht, e->key, &v) != CC_OK || v != e->value) { o(" WALK=iter-vs-get"); break; }
         }
         if (n != cnt) o(" WALK=iter-count");
-    } else o("size=- cap=- keys=[] vals=[]");
+    } else o("size=- keys=[] vals=[]");
     for (int s = 1; s < NSLOT; s++) if (darr[s]) {
         char nm[8]; snprintf(nm, sizeof nm, "d%d", s);
         size_t n = cc_array_size(darr[s]); unsigned long long *t = __real_malloc(sizeof *t * (n ? n : 1));
-        for (size_t i = 0; i < n; i++) { void *x = NULL; cc_array_get_at(darr[s], i, &x); t[i] = VAL(x); }
+        for (size_t i = 0; i < n; i++) { void *x = NULL; cc_array_get_at(darr[s], i, &x); t[i] = dkind[s] == 1 ? keyval(x) : VAL(x); }
         o(" "); o_sorted(nm, t, n); __real_free(t);
     }
 }
@@ -125,7 +127,6 @@ static const char *ptr_name(TableEntry *p, char *buf) {
         if (e == p) { snprintf(buf, 32, "%llu", keyval(e->key)); return buf; }
     return "x";
 }
-static int dkind[NSLOT]; /* 1 = keys array (elements are key pointers), 2 = values */
 static void phys(void) {
     if (ht) {
         o("cap=%zu size=%zu thr=%zu ", ht->capacity, ht->size, ht->threshold);
